@@ -14,7 +14,7 @@
      4. size_hint brackets the number of items still to come (upstream hints truthful).
    Upstream scripts may contain End in the middle (a source that resumes after reporting
    the end), so clause 3 is a theorem about the combinator, not an assumption. *)
-From HV Require Import Pull.Model Pull.PCore Pull.POne Pull.PTwo Pull.PSpec Pull.PCompose Pull.Corr Pull.PSound Pull.PHolds Pull.ModelX Pull.PX Pull.CorrX Pull.PX2 Pull.CorrP Pull.PPipe.
+From HV Require Import Pull.Model Pull.PCore Pull.POne Pull.PTwo Pull.PSpec Pull.PCompose Pull.Corr Pull.PSound Pull.PHolds Pull.ModelX Pull.PX Pull.CorrX Pull.PX2 Pull.CorrP Pull.PPipe Pull.PHoldsX.
 Open Scope N_scope.
 
 Theorem C11_map : forall (A B : Type) (uh : script A -> hintT), truthful uh -> forall f : A -> B,
@@ -321,6 +321,31 @@ Theorem C11_pipeline_model : forall g1 g2 (a : srcN), exists H0, forall H, (H0 <
     tr_items_until (prun (PCase H [g1] g2 a) n) = pref (PCase H [g1] g2 a).
 Proof. exact pipe2_items. Qed.
 Print Assumptions C11_pipeline_model.
+
+(* any depth: if every intermediate level reports its end within the horizon (a boolean the
+   check evaluates as part of its agreement bit) and the trace reaches the end, the composed
+   model emits the composition of the iterator adaptors *)
+Theorem C11_pipeline_model_any_depth : forall (c : pcase) n,
+  horizon_ok (p_inner c) (p_h c) (s_scr (p_src c), sh (p_src c)) = true ->
+  has_end (prun c n) = true ->
+  tr_items_until (prun c n) = pref c.
+Proof. exact pipe_items. Qed.
+Print Assumptions C11_pipeline_model_any_depth.
+
+(* the clause evaluator shared by all check kinds (combinators, adaptors, pipelines) is sound *)
+Theorem C11_gen_ok_sound : forall refv f t, gen_ok refv f t = true ->
+  tr_items t = Some refv /\
+  (f = true -> Forall (fun x => snd x = Ended /\ fst (fst x) = 0) (tr_after_end t)) /\
+  hints_bracket t.
+Proof. exact gen_ok_sound. Qed.
+Print Assumptions C11_gen_ok_sound.
+
+(* and complete on the model's traces of the adaptors with a full specification *)
+Theorem C11_adaptors_checker_complete : forall c n,
+  match c with XRelay _ | XFlatMapStream _ _ | XFlattenStream _ => True | _ => False end ->
+  tr_items (xrun c n) <> None -> gen_ok (xref c) (xfused c) (xrun c n) = true.
+Proof. exact xmodel_holds. Qed.
+Print Assumptions C11_adaptors_checker_complete.
 
 (* non-vacuity: concrete scripts with Pend between the two sides of a zip, inside a flat_map's
    inner iterator, and a non-fused source under Fuse *)
